@@ -25,6 +25,106 @@ def _closure_of_for_each(prog, f):
                         yield c, prog.fns.get(cid)
 
 
+def _float_restarts(sym, f, step_expr):
+    """expressions  X + step * (k as f64)  (either order) in f, k not a constant"""
+    out = []
+
+    def is_step_mul(e):
+        while e[0] == "cast" and e[1] in ("FloatToFloat",):
+            e = e[2]
+        if e[0] == "bin" and e[1] == "Mul":
+            for s_, k_ in ((e[2], e[3]), (e[3], e[2])):
+                if s_ == step_expr:
+                    kk = k_
+                    if kk[0] == "cast" and kk[1] == "IntToFloat":
+                        inner = kk[2]
+                        while inner[0] == "cast":
+                            inner = inner[2]
+                        if inner[0] != "const":
+                            return True
+        return False
+    seen = set()
+    for l, ds in sym.defs.items():
+        for (bb, j, rv, whole) in ds:
+            e = sym.rvalue(rv, bb, (bb, j))
+            stack = [e]
+            while stack:
+                x = stack.pop()
+                if not isinstance(x, tuple) or not x:
+                    continue
+                if x[0] == "bin" and x[1] == "Add" and (is_step_mul(x[2]) or is_step_mul(x[3])):
+                    if fmt(x) not in seen:
+                        seen.add(fmt(x))
+                        out.append((x, f.blocks[bb]["s"][j][3] if j != "term" else f.loc))
+                stack += [y for y in x if isinstance(y, tuple)]
+    return out
+
+
+def float_restart(rep, prog, rule):
+    rep.rule(rule, "a closure that rayon runs per band and that walks source rows with "
+             "iter_rows_with_step(start, step, n) must get the start the sequential iterator would have "
+             "reached (the iterator accumulates y += step); a start computed in the enclosing function as "
+             "base + step * (k as f64) is equal only in exact arithmetic: for row centres on or near a "
+             "source row boundary the band copies a neighbouring row, so the bytes depend on the number of "
+             "bands; a band start that is not traced is undecided")
+    n = 0
+    for g in sorted(prog.fns.values(), key=lambda z: z.id):
+        if g.kind != "closure":
+            continue
+        calls = [c for c in g.calls() if (c.method or c.name.rsplit("::", 1)[-1]) == "iter_rows_with_step"]
+        if not calls:
+            continue
+        parent = prog.fns.get(g.d.get("parent"))
+        if parent is None:
+            continue
+        # is the closure handed to a rayon adaptor?
+        par = False
+        psym = Sym(parent)
+        captured = None
+        for c in parent.calls():
+            if not re.search(r"rayon|ParallelIterator|par_iter", c.name):
+                continue
+            for a in c.args:
+                e = psym.operand(a, (c.bb, "term"))
+                if e[0] == "agg" and e[1] == "closure" and e[2] == g.id:
+                    par = True
+                    captured = e[4]
+        if not par:
+            continue
+        gs = Sym(g)
+        for c in calls:
+            n += 1
+            rep.touch(parent)
+            key = "%s|iter_rows_with_step" % g.name
+            start = gs.operand(c.args[1], (c.bb, "term"))
+            step = gs.operand(c.args[2], (c.bb, "term"))
+            # the step as an expression of the parent: a captured variable
+            s_ = step
+            while s_[0] in ("cast", "deref", "ref"):
+                s_ = s_[2] if s_[0] == "cast" else s_[1]
+            step_parent = None
+            if s_[0] == "field" and s_[1][0] == "param" and s_[1][1] == 1 and isinstance(s_[2], int) \
+                    and captured is not None and s_[2] < len(captured):
+                step_parent = captured[s_[2]]
+                while step_parent[0] in ("ref", "deref"):
+                    step_parent = step_parent[1]
+            if step_parent is None:
+                rep.unk(rule, key, c.at, "step of the band iterator is not a captured value")
+                continue
+            hits = _float_restarts(psym, parent, step_parent)
+            if hits:
+                rep.bad(rule, key + "|restart", hits[0][1],
+                        "%s: the bands start their row iterator at %s, recomputed by a multiplication, while "
+                        "the sequential path accumulates y += step: the two round differently, the result "
+                        "depends on the number of bands" % (parent.name, fmt(hits[0][0])[:120]))
+            else:
+                rep.unk(rule, key, c.at, "start %s of a band's row iterator is not traced to the "
+                        "sequential position" % fmt(start)[:60])
+    if n == 0:
+        rep.ok(rule, "no-parallel-row-stepping", "", "no closure run by rayon walks rows with iter_rows_with_step",
+               nontrivial=False)
+
+
 def offset_once(rep, prog, rule):
     rep.rule(rule, "in every expansion of the threading macros the threaded branch hands the "
              "source offset to the split and `0` to the per-band operation, the sequential branch "
@@ -246,6 +346,7 @@ def run(rep, tier):
         rep.set_cfg(cfg)
         rep.call(offset_once, rep, prog, "C08.offset-once")
         rep.call(axis, rep, prog, "C08.axis")
+        rep.call(float_restart, rep, prog, "C08.float-restart")
         rep.call(c14.aliasing, rep, prog, "C08.aliasing")
         rep.call(c14.guards, rep, prog, "C08.split-guards")
         rep.call(c14.offsets, rep, prog, "C08.split-offsets")
